@@ -755,6 +755,171 @@ open GopModel.TS
 
 `
 
+// fieldAccess lists, for every function of the file in source order, how it touches the shared
+// field `field` of the receiver/any variable (delete / insert / len / range / init / other) and
+// which methods it calls on the field `cond` (wait / broadcast / signal / bind).  This is the frame
+// condition of the model: the thread programs translated above must be the ONLY code that changes
+// the set or uses the condition variable (a kernel-decided theorem compares the table).
+func (s *sySrcFile) fieldAccess(set, cond string) (setAcc, condAcc [][2]string) {
+	add := func(l *[][2]string, fn, kind string) {
+		for _, e := range *l {
+			if e[0] == fn && e[1] == kind {
+				return
+			}
+		}
+		*l = append(*l, [2]string{fn, kind})
+	}
+	isField := func(e ast.Expr, name string) bool {
+		se, ok := e.(*ast.SelectorExpr)
+		return ok && se.Sel.Name == name
+	}
+	for _, d := range s.file.Decls {
+		fd, ok := d.(*ast.FuncDecl)
+		if !ok || fd.Body == nil {
+			continue
+		}
+		fn := fd.Name.Name
+		classified := map[ast.Node]bool{}
+		ast.Inspect(fd.Body, func(n ast.Node) bool {
+			switch n := n.(type) {
+			case *ast.CallExpr:
+				if id, ok := n.Fun.(*ast.Ident); ok && len(n.Args) >= 1 && isField(n.Args[0], set) {
+					switch id.Name {
+					case "delete":
+						add(&setAcc, fn, "delete")
+						classified[n.Args[0]] = true
+					case "len":
+						add(&setAcc, fn, "len")
+						classified[n.Args[0]] = true
+					}
+				}
+				if se, ok := n.Fun.(*ast.SelectorExpr); ok && isField(se.X, cond) {
+					add(&condAcc, fn, strings.ToLower(se.Sel.Name))
+					classified[se.X] = true
+				}
+			case *ast.AssignStmt:
+				for _, l := range n.Lhs {
+					if ix, ok := l.(*ast.IndexExpr); ok && isField(ix.X, set) {
+						add(&setAcc, fn, "insert")
+						classified[ix.X] = true
+					}
+					if se, ok := l.(*ast.SelectorExpr); ok && isField(se.X, cond) {
+						add(&condAcc, fn, "bind")
+						classified[se.X] = true
+					}
+				}
+			case *ast.RangeStmt:
+				if isField(n.X, set) {
+					add(&setAcc, fn, "range")
+					classified[n.X] = true
+				}
+			case *ast.KeyValueExpr:
+				if id, ok := n.Key.(*ast.Ident); ok && id.Name == set {
+					add(&setAcc, fn, "init")
+				}
+			case *ast.SelectorExpr:
+				if n.Sel.Name == set && !classified[n] {
+					add(&setAcc, fn, "other")
+				}
+				if n.Sel.Name == cond && !classified[n] {
+					add(&condAcc, fn, "other")
+				}
+			}
+			return true
+		})
+	}
+	return
+}
+
+// chanAccess lists, per function in source order, the operations on the feeder's channel fields
+// and on its flag: send/recv/close/init per channel, set/read for the flag.
+func (s *sySrcFile) chanAccess(chans []string, flag string) (acc [][2]string) {
+	add := func(fn, kind string) {
+		for _, e := range acc {
+			if e[0] == fn && e[1] == kind {
+				return
+			}
+		}
+		acc = append(acc, [2]string{fn, kind})
+	}
+	fieldOf := func(e ast.Expr) string {
+		if se, ok := e.(*ast.SelectorExpr); ok {
+			for _, c := range chans {
+				if se.Sel.Name == c {
+					return c
+				}
+			}
+			if se.Sel.Name == flag {
+				return flag
+			}
+		}
+		return ""
+	}
+	for _, d := range s.file.Decls {
+		fd, ok := d.(*ast.FuncDecl)
+		if !ok || fd.Body == nil {
+			continue
+		}
+		fn := fd.Name.Name
+		classified := map[ast.Node]bool{}
+		ast.Inspect(fd.Body, func(n ast.Node) bool {
+			switch n := n.(type) {
+			case *ast.SendStmt:
+				if f := fieldOf(n.Chan); f != "" {
+					add(fn, "send:"+f)
+					classified[n.Chan] = true
+				}
+			case *ast.UnaryExpr:
+				if f := fieldOf(n.X); f != "" && n.Op == token.ARROW {
+					add(fn, "recv:"+f)
+					classified[n.X] = true
+				}
+			case *ast.CallExpr:
+				if id, ok := n.Fun.(*ast.Ident); ok && id.Name == "close" && len(n.Args) == 1 {
+					if f := fieldOf(n.Args[0]); f != "" {
+						add(fn, "close:"+f)
+						classified[n.Args[0]] = true
+					}
+				}
+			case *ast.AssignStmt:
+				for _, l := range n.Lhs {
+					if f := fieldOf(l); f != "" {
+						add(fn, "set:"+f)
+						classified[l] = true
+					}
+				}
+			case *ast.KeyValueExpr:
+				if id, ok := n.Key.(*ast.Ident); ok {
+					for _, c := range append(append([]string{}, chans...), flag) {
+						if id.Name == c {
+							add(fn, "init:"+c)
+						}
+					}
+				}
+			case *ast.SelectorExpr:
+				if f := fieldOf(n); f != "" && !classified[n] {
+					add(fn, "read:"+f)
+				}
+			}
+			return true
+		})
+	}
+	return
+}
+
+func leanPairs(name, doc string, l [][2]string) string {
+	var b strings.Builder
+	fmt.Fprintf(&b, "/-- %s -/\ndef %s : List (String × String) := [", doc, name)
+	for i, e := range l {
+		if i > 0 {
+			b.WriteString(", ")
+		}
+		fmt.Fprintf(&b, "(%q, %q)", e[0], e[1])
+	}
+	b.WriteString("]\n\n")
+	return b.String()
+}
+
 // ---- x/watcher/changes.go --------------------------------------------------------------
 
 func syncWatcher(repo, out string) error {
@@ -815,6 +980,9 @@ func syncWatcher(repo, out string) error {
 		}
 		b.WriteString(text)
 	}
+	setAcc, condAcc := s.fieldAccess(set, cond)
+	b.WriteString(leanPairs("setAccess", "every function of changes.go that touches the pending set, and how (frame condition)", setAcc))
+	b.WriteString(leanPairs("condAccess", "every function of changes.go that uses the condition variable, and how", condAcc))
 	b.WriteString("/-- any number of Fetch (0) and FileChanged (1) threads may be started at any time -/\n")
 	b.WriteString("def sys : Sys := { fns := [fetchFn, fileChangedFn], spawnable := [0, 1], initThreads := [] }\n\n")
 	b.WriteString("end GopModel.Generated.SyncWatcher\n")
@@ -907,6 +1075,7 @@ func syncFakenet(repo, out string) error {
 	if err != nil {
 		return err
 	}
+	b.WriteString(leanPairs("chanAccess", "every function of conn.go that operates on a feeder channel or the closed flag, and how (frame condition)", s.chanAccess(chanFields, flag)))
 	b.WriteString("/-- how fakeConn uses its two feeders (from NewConn, Read, Write, Close) -/\n")
 	b.WriteString("def wiring : List (String × String) := [\n")
 	for i, w := range wiring {
